@@ -1493,7 +1493,12 @@ pub fn generate(r: &mut Rng, cfg: &GenCfg) -> Workspace {
     // print
     let mut printed = Vec::new();
     for m in &modules {
-        let p = print_module(m, Some(r), cfg.trivia, cfg.non_ascii);
+        let mut p = print_module(m, Some(r), cfg.trivia, cfg.non_ascii);
+        // Sometimes the file ends right after its last token (no trailing newline).
+        if r.chance(1, 4) {
+            let keep = p.text.trim_end().len();
+            p.text.truncate(keep);
+        }
         printed.push(p);
     }
     for (mi, p) in printed.iter().enumerate() {
